@@ -23,44 +23,39 @@ Proof.
   rewrite file_lines_line by (apply line_ok_no_nl, Hl). rewrite (IH Hf). reflexivity.
 Qed.
 
-Lemma sline_ok_line_ok f : forallb sline_ok f = true -> forallb line_ok f = true.
-Proof.
-  induction f as [|l f IH]; [reflexivity|]. cbn [forallb]. rewrite !andb_true_iff. intros [Hl Hf].
-  unfold sline_ok in Hl. apply andb_true_iff in Hl as [Hl _]. auto.
-Qed.
-
 Lemma split_tab_line l : line_ok l = true -> split_on TAB l = [l].
 Proof. intros H. apply split_on_none, line_ok_no_tab, H. Qed.
 
 (* ---------- LoadExpanded, line by line ---------- *)
-Lemma loadx_cons l ls buf fm : l <> [] ->
+Lemma loadx_cons l ls buf fm : l <> [] \/ fm <> [] ->
   loadx_lines rd (l :: ls) buf fm =
   match rd (buf ++ expand (split_on TAB l)) with
   | RFull => let r := loadx_lines rd ls [] [] in ((fm ++ split_on TAB l) :: fst r, snd r)
   | RPartial => loadx_lines rd ls (buf ++ expand (split_on TAB l)) (fm ++ split_on TAB l)
   | RErr => ([], false)
   end.
-Proof. destruct l; [congruence|reflexivity]. Qed.
+Proof. intros [H|H]; destruct l, fm; try congruence; reflexivity. Qed.
 
-Lemma sline_ok_nonempty l : sline_ok l = true -> l <> [].
-Proof. unfold sline_ok. destruct l; [rewrite andb_false_r; discriminate|discriminate]. Qed.
+Lemma first_nonempty_cons l f : first_nonempty (l :: f) = true -> l <> [].
+Proof. destruct l; [discriminate|discriminate]. Qed.
 
-(* the lines of a form written by Add: collected one by one; the reader accepts after the last *)
+(* the lines of a form written by Add: collected one by one (an empty line too, once the form has begun);
+   the reader accepts after the last *)
 Lemma loadx_chain : forall suf pre ls,
-  forallb sline_ok suf = true -> chain rd pre suf = true ->
+  forallb line_ok suf = true -> pre <> [] \/ first_nonempty suf = true -> chain rd pre suf = true ->
   loadx_lines rd (suf ++ ls) (expand pre) pre =
   (let r := loadx_lines rd ls [] [] in ((pre ++ suf) :: fst r, snd r)).
 Proof.
-  induction suf as [|l suf IH]; intros pre ls Hok Hc; [discriminate Hc|].
-  cbn [forallb] in Hok. apply andb_true_iff in Hok as [Hl Hsuf].
-  cbn [app]. rewrite loadx_cons by (apply sline_ok_nonempty, Hl).
-  assert (Hlo : line_ok l = true) by (unfold sline_ok in Hl; apply andb_true_iff in Hl as [Hl _]; exact Hl).
+  induction suf as [|l suf IH]; intros pre ls Hok Hne Hc; [discriminate Hc|].
+  cbn [forallb] in Hok. apply andb_true_iff in Hok as [Hlo Hsuf].
+  cbn [app]. rewrite loadx_cons by (destruct Hne as [Hne|Hne]; [right; exact Hne|left; apply (first_nonempty_cons l suf Hne)]).
   rewrite (split_tab_line l Hlo). rewrite <- expand_app.
+  assert (Hpre : pre ++ [l] <> []) by (destruct pre; discriminate).
   destruct suf as [|l2 suf].
   - cbn [chain] in Hc. destruct (rd (expand (pre ++ [l]))); try discriminate Hc. reflexivity.
   - change (chain rd pre (l :: l2 :: suf)) with (is_partial (rd (expand (pre ++ [l]))) && chain rd (pre ++ [l]) (l2 :: suf)) in Hc.
     apply andb_true_iff in Hc as [Hp Hc]. destruct (rd (expand (pre ++ [l]))); try discriminate Hp.
-    rewrite (IH (pre ++ [l]) ls Hsuf Hc). rewrite <- app_assoc. reflexivity.
+    rewrite (IH (pre ++ [l]) ls Hsuf (or_introl Hpre) Hc). rewrite <- app_assoc. reflexivity.
 Qed.
 
 Lemma chain_full : forall suf pre, chain rd pre suf = true -> rd (expand (pre ++ suf)) = RFull.
@@ -72,16 +67,16 @@ Proof.
 Qed.
 
 Lemma sencodable_parts f : sencodable rd f = true ->
-  f <> [] /\ forallb sline_ok f = true /\ forallb line_ok f = true /\ chain rd [] f = true /\ form_empty f = false.
+  f <> [] /\ first_nonempty f = true /\ forallb line_ok f = true /\ chain rd [] f = true /\ form_empty f = false.
 Proof.
-  unfold sencodable. rewrite !andb_true_iff. intros [[Hl He] Hc]. apply negb_true_iff in He.
-  split; [intros ->; discriminate Hc|]. split; [exact Hl|]. split; [apply sline_ok_line_ok, Hl|]. split; assumption.
+  unfold sencodable. rewrite !andb_true_iff. intros [[[Hl Hf] He] Hc]. apply negb_true_iff in He.
+  split; [intros ->; discriminate Hc|]. repeat split; assumption.
 Qed.
 
-Lemma join_tab_nonempty f : f <> [] -> forallb sline_ok f = true -> join_tab f <> [].
+Lemma join_tab_nonempty f : first_nonempty f = true -> join_tab f <> [].
 Proof.
-  destruct f as [|l f]; [congruence|]. intros _ H. cbn [forallb] in H. apply andb_true_iff in H as [Hl _].
-  apply sline_ok_nonempty in Hl. destruct f; cbn [join_tab]; destruct l; try congruence; discriminate.
+  destruct f as [|l f]; [discriminate|]. intros H. apply first_nonempty_cons in H.
+  destruct f; cbn [join_tab]; destruct l; try congruence; discriminate.
 Qed.
 
 (* a form written by Clear: one line, TABs between the lines of the form *)
@@ -89,7 +84,7 @@ Lemma loadx_tab f ls : sencodable rd f = true ->
   loadx_lines rd (join_tab f :: ls) [] [] = (let r := loadx_lines rd ls [] [] in (f :: fst r, snd r)).
 Proof.
   intros H. destruct (sencodable_parts f H) as (Hne & Hs & Hl & Hc & _).
-  rewrite loadx_cons by (apply join_tab_nonempty; assumption).
+  rewrite loadx_cons by (left; apply join_tab_nonempty; assumption).
   rewrite (split_join_tab f Hne Hl). pose proof (chain_full f [] Hc) as Hf. cbn [app] in Hf |- *. rewrite Hf. reflexivity.
 Qed.
 
@@ -111,7 +106,7 @@ Proof.
   destruct (sencodable_parts _ Hp) as (Hne & Hs & Hlo & Hc & _).
   destruct p as [[|] f]; cbn [fst snd] in *.
   - rewrite <- app_assoc. change (expand []) with (@nil byte) in *.
-    pose proof (loadx_chain f [] ([[]] ++ file_lines (flat_map chunk l)) Hs Hc) as E. cbn [app expand flat_map] in E.
+    pose proof (loadx_chain f [] ([[]] ++ file_lines (flat_map chunk l)) Hlo (or_intror Hs) Hc) as E. cbn [app expand flat_map] in E.
     cbn [app]. refine (eq_trans E _). cbn [loadx_lines]. rewrite IH. reflexivity.
   - cbn [app]. rewrite (loadx_tab f _ Hp). rewrite IH. reflexivity.
 Qed.
@@ -291,14 +286,18 @@ Proof.
   - repeat split; vm_compute; reflexivity.
 Qed.
 
-(* outside the guard (known findings): an empty line inside a form is lost when the stash is loaded
-   again; an incomplete form swallows the forms stashed after it *)
+(* an empty line inside a form: kept by the repaired LoadExpanded, lost by the one before repo fix C20-4 *)
 Definition SE : form := [[40; 101]; []; [41]].                  (* (e / <empty> / ) *)
 Definition SP : form := [[40; 112]].                            (* (p   -- incomplete *)
 Lemma stash_empty_line_refuted :
   let '((fs, d), _) := srun rd_paren sstart0 [SUse; SAdd SE] in
-  fs = [SE] /\ sload rd_paren d = ([[[40; 101]; [41]]], true).
-Proof. vm_compute. split; reflexivity. Qed.
+  fs = [SE] /\ sencodable rd_paren SE = true /\ sload rd_paren d = ([SE], true) /\
+  match d_hist d with
+  | Some bs => loadx_lines_old rd_paren (file_lines bs) [] [] = ([[[40; 101]; [41]]], true)
+  | None => False
+  end.
+Proof. vm_compute. repeat split. Qed.
+(* outside the guard (known finding): an incomplete form swallows the forms stashed after it *)
 Lemma stash_incomplete_form_refuted :
   let '((fs, d), _) := srun rd_paren sstart0 [SUse; SAdd SP; SAdd SA] in
   fs = [SP; SA] /\ sload rd_paren d = ([], true).
